@@ -41,7 +41,10 @@ BAD_OPTIONS = [lambda mag: dict(dt_init=0.1 * (1 + mag), dt_max=0.1), lambda mag
 SEED_DIFFS = ["fewer-terminals", "no-terminals", "fewer-holes", "one-more-hole", "layer", "name", "probe-points", "other-kind",
               # history on one device object: the seed is computed on the very device that is simulated afterwards, and a layer
               # parameter of that device is edited IN PLACE in between (the seed belongs to a different physical device)
-              "layer-edited-in-place:london_lambda", "layer-edited-in-place:thickness", "layer-edited-in-place:coherence_length"]
+              "layer-edited-in-place:london_lambda", "layer-edited-in-place:thickness", "layer-edited-in-place:coherence_length",
+              # the same REGION described by another vertex array (finer sampling; same vertices starting elsewhere): another
+              # mesh, so the seed's arrays belong to other sites
+              "film-resampled", "film-rolled"]
 
 
 def seed_device(tdgl, dev, how):
@@ -70,6 +73,11 @@ def seed_device(tdgl, dev, how):
         name = dev.name + "_b"
     elif how == "probe-points":
         kw["probe_points"] = [(-1.0, 0.5), (1.0, -0.5)]
+    elif how == "film-resampled":
+        kw["film"] = tdgl.Polygon(dev.film.name, points=dev.film.resample(2 * len(dev.film.points) + 3).points)
+    elif how == "film-rolled":
+        pts = np.asarray(dev.film.points)[:-1]
+        kw["film"] = tdgl.Polygon(dev.film.name, points=np.roll(pts, 7, axis=0))
     elif how == "other-kind":
         return devices.make(tdgl, "bar" if dev.name != "bar" else "barhole", probes=2)
     d = tdgl.Device(name, **kw)
@@ -96,12 +104,12 @@ def matrix(ctx):
         for d in devs:
             for mag in MAGS:
                 for outm in ("temp", "path"):
-                    variants = {"options": len(BAD_OPTIONS), "options_reused": len(BAD_OPTIONS), "polygon": 9, "device": 8, "seed": len(SEED_DIFFS), "epsilon": 3, "currents_t": 2, "terminal": 8,
+                    variants = {"options": len(BAD_OPTIONS), "options_reused": len(BAD_OPTIONS), "polygon": 9, "device": 12, "seed": len(SEED_DIFFS), "epsilon": 3, "currents_t": 2, "terminal": 8,
                                 "ashape": 16}.get(cls, 1)
                     for v in range(variants):
                         if cls in ("options", "options_reused", "polygon", "device", "terminal", "seed", "ashape") and mag != 1.0 \
                                 and not (cls in ("options", "options_reused") and v in (0, 1)) and not (cls == "polygon" and v >= 3) \
-                                and not (cls == "seed" and v >= 8):
+                                and not (cls == "seed" and 8 <= v <= 10):
                             continue
                         if cls in ("options", "options_reused") and v in ENV_DEPENDENT and not _missing(ENV_DEPENDENT[v]):
                             continue            # that back end is installed here: the options are usable
@@ -236,7 +244,8 @@ def illposed_run(tdgl, p, base_tmp=None):
                                       terminal_currents=seed_currents(other))
                     # independent of Device.__eq__ (the code under test): the two devices differ in a respect we can name
                     sig = lambda d: (d.name, len(d.holes), len(d.terminals), float(d.layer.coherence_length),
-                                     None if d.probe_points is None else np.asarray(d.probe_points).round(9).tolist())
+                                     None if d.probe_points is None else np.asarray(d.probe_points).round(9).tolist(),
+                                     np.asarray(d.film.points).round(9).tolist())
                     if edit:
                         # the difference is made by the harness itself, after the seed was computed (small and large edits)
                         factor = {1.0: 2.0, 1e-3: 1.001, 1e-6: 1.000001}.get(mag, 2.0)
@@ -310,6 +319,16 @@ def illposed_run(tdgl, p, base_tmp=None):
                 elif v == 5:
                     tdgl.Device("d", layer=layer, film=film, terminals=[tdgl.Polygon(points=box(0.1, 3, center=(-2.5, 0))),
                                                                          tdgl.Polygon("b", points=box(0.1, 3, center=(2.5, 0)))])   # unnamed terminal
+                elif v in (8, 9, 10, 11):
+                    # a probe point inside a hole is not "within the film": with one hole, with two and three holes, at the
+                    # centre of the hole and just inside its rim
+                    holes = [tdgl.Polygon("h1", points=circle(0.5, points=24, center=(-1.2, 0.3))),
+                             tdgl.Polygon("h2", points=circle(0.4, points=24, center=(1.0, -0.5))),
+                             tdgl.Polygon("h3", points=circle(0.3, points=24, center=(0.0, 0.9)))][: [1, 2, 3, 2][v - 8]]
+                    inside = [(-1.2, 0.3), (1.0, -0.5), (0.0, 0.9 - 0.25), (1.0 + 0.35, -0.5)][v - 8]
+                    d2 = tdgl.Device("d", layer=layer, film=film, holes=holes, probe_points=[(-2.0, -1.0), inside])
+                    d2.make_mesh(max_edge_length=0.8)
+                    tdgl.solve(d2, tdgl.SolverOptions(**kw), applied_vector_potential=0.1)
                 else:
                     # a device that was never meshed (v == 6), or whose mesh was dropped again (v == 7), handed to the solver
                     d2 = tdgl.Device("d", layer=layer, film=film, terminals=[tdgl.Polygon("source", points=box(0.1, 3, center=(-2.5, 0))),
